@@ -1,7 +1,90 @@
-import IwModel.Model.JsonParse
+import IwModel.Lemmas.JsonText
 import IwModel.Model.JsonPrint
-/-! # C13 — JSON text is parsed to the value it denotes and printed text parses back -/
+/-! # C13 — JSON text is parsed to the value it denotes and printed text parses back
+
+Property theorems only; definitions of the specification side (`Cst`, `decode`, …) are in
+`IwModel/Model/JsonSpec.lean`, helper lemmas in `IwModel/Lemmas/Json*.lean`.
+Doubles are opaque: `sd` is the model's stand-in for `iwstrtod`, `D` the double a number token denotes. -/
 namespace IwModel.C13
 open IwModel IwModel.Json
+
+/-- **Two-pass unescape.** Whatever the buffer size `dlen` and start offset `d`, one call of
+    `_jbl_unescape_json_string` returns the offset advanced by the length of the decoded content, has stored
+    exactly the first `dlen - d` bytes of it, and stops behind the closing quote; errors do not depend on the
+    buffer.  Hence the fill pass into a buffer of the length the length pass returned stores exactly that many
+    bytes (no overrun, nothing missing) and the parser's string is the decoded content. -/
+theorem unescape_two_pass (q : Nat) (p : Bytes) :
+    (∀ dlen d, unescPass q dlen p d = passOf dlen d (decode q p)) ∧
+    (∀ content rest, decode q p = .ok (content, rest) →
+        unescPass q 0 p 0 = .ok (content.length, [], rest) ∧
+        unescPass q content.length p 0 = .ok (content.length, content, rest)) ∧
+    (∀ b, parseStr q p b = decode q p) := by
+  refine ⟨fun dlen d => unescPass_eq q dlen p d, ?_, fun b => parseStr_eq q p b⟩
+  intro content rest h
+  simp [unescPass_eq, h, passOf]
+
+/-- **Every spelling of a string.** A string body spelled with any mix of unescaped bytes, two-character escapes,
+    `\uXXXX` (either hex case) and surrogate pairs decodes to exactly the UTF-8 bytes it denotes. -/
+theorem string_spellings (s : List Spell) (rest : Bytes) (hv : strValid s = true) :
+    parseStr 34 (strText s ++ 34 :: rest) false = .ok (strValue s, rest) := by
+  rw [parseStr_eq, decode_spells s rest hv]
+
+/-- **Integers exactly.** The text of any int64 (optional `-`, decimal digits, also `-0`), followed by a delimiter,
+    is read by the number branch as that integer. -/
+theorem integer_exact (sd : SD) (neg : Bool) (n : Nat) (rest : Bytes)
+    (hr : if neg then n ≤ 2 ^ 63 else n < 2 ^ 63) (hd : delim rest = true) :
+    parseNumber sd (signText neg ++ Conv.digits n ++ rest) =
+      .ok (.int (if neg then -(n : Int) else (n : Int)), rest) :=
+  parseNumber_int sd neg n rest (by cases neg <;> simp_all [Cst.valid]) hd
+
+/-- **Parsing valid JSON (partial: keys without U+0000, finding F9).** Every RFC 8259 text — any document, any white
+    space layout, any spelling of strings and numbers, nesting up to `JBL_MAX_NESTING_LEVEL` containers — is
+    accepted by `jbn_from_json` and yields the value it denotes: strings byte for byte, integers exactly,
+    numbers with fraction/exponent as the double `D token` that the (opaque, assumed) `iwstrtod` returns.
+    What is missing for the full statement: object keys containing U+0000 are truncated (see `key_nul_truncated`). -/
+theorem parse_render_partial (sd : SD) (D : Bytes → Nat) (hsd : SdSpec sd D) (c : Cst) (pre post : Bytes)
+    (hv : c.valid = true) (hdep : c.depth ≤ maxNesting) (hpre : wsOk pre = true) (hpost : wsOk post = true) :
+    parse sd (pre ++ c.text ++ post) = .ok (some (c.value D)) := by
+  have hnz : nz (pre ++ c.text ++ post) := by
+    rw [nz_append, nz_append]; exact ⟨⟨nz_ws _ hpre, nz_cst c hv⟩, nz_ws _ hpost⟩
+  obtain ⟨b, r, hb, hlt⟩ := text_head_ascii c pre post hpre
+  unfold parse
+  simp only [cstr_nz _ hnz]
+  rw [hb, skipBom_ascii b r hlt, ← hb]
+  have hneed := need_le c
+  have hlen : c.need ≤ 2 * (pre ++ c.text ++ post).length + 4 := by
+    simp only [List.length_append]; omega
+  rw [parseValue_cst sd D hsd c _ 0 pre post hv (by omega) hlen (wsOk_sepOk _ hpre) (delim_ws _ hpost)]
+
+/-- **F9 witness.** The model exhibits the open finding: the key `a\u0000b` is read as `a`. -/
+theorem key_nul_truncated (sd : SD) :
+    parse sd [123, 34, 97, 92, 117, 48, 48, 48, 48, 98, 34, 58, 49, 125] = .ok (some (.obj [([97], .int 1)])) := by
+  rfl
+
+/-- **UTF-8 leaves.** `utf8proc_iterate` inverts `utf8proc_encode_char` on every valid code point, and accepts only
+    encodings of valid code points (so escapes written by the printer for a string denote that very string). -/
+theorem utf8_roundtrip :
+    (∀ cp rest, codepointValid cp = true → iterate (encodeChar cp ++ rest) = some (cp, (encodeChar cp).length)) ∧
+    (∀ s cp n, (∀ b ∈ s, b < 256) → iterate s = some (cp, n) →
+        encodeChar cp = s.take n ∧ codepointValid cp = true ∧ 1 ≤ n ∧ n ≤ s.length) :=
+  ⟨iterate_encode, encode_iterate⟩
+
+/-- side conditions on regenerated constants -/
+theorem generated_ok : maxNesting = 999 ∧ unescLetter 114 = some 13 ∧ unescLetter 110 = some 10 := by decide
+
+/-! non-vacuity: a document with every kind of spelling satisfies the hypotheses, and denotes what one expects -/
+def exampleCst : Cst :=
+  .arr [] (.cons [32] (.str [.raw 97, .esc 110, .u4 48 48 101 57, .pair 100 56 51 100 100 101 48 48])
+    [10] (.cons [] (.int true 0) [] (.cons [9] (.obj [32] .nil) [] .nil)))
+
+example : exampleCst.valid = true ∧ exampleCst.depth ≤ maxNesting := by decide
+
+example : exampleCst.text = [91, 32, 34, 97, 92, 110, 92, 117, 48, 48, 101, 57, 92, 117, 100, 56, 51, 100, 92, 117, 100, 101,
+    48, 48, 34, 10, 44, 45, 48, 44, 9, 123, 32, 125, 93] := by
+  simp [exampleCst, Cst.text, Items.text, Members.text, Items.isNil, Members.isNil, quoted, strText, Spell.text, signText,
+    digits_lt10]
+
+example : exampleCst.value (fun _ => 0) = .arr [.str [97, 10, 195, 169, 240, 159, 152, 128], .int 0, .obj []] := by
+  rfl
 
 end IwModel.C13
